@@ -91,6 +91,10 @@ package core
 //@   loop 2 invariant [count] bundle.BundleDescriptor.BundleEntriesFileCount == numFileListUploads
 //@   loop 2 invariant [lists] listsStored(ms, bundle, numFileListUploads)
 //@   loop 2 invariant [ids] Bundle.MetaStore(bundle) == ms && cap(fileList) >= 0
+// the collector stops at the done signal: that loses no result only because results are handed over by
+// rendezvous (a sender returns only once its result was received) and the done signal follows the
+// return of every sender (uploadBundleFiles). A buffered result channel breaks this silently.
+//@   call uploadBundleFiles#1 assert [results-handed-over-not-queued] cap($chans.filePacked) == 0 && cap($chans.error) == 0
 //@   call uploadBundleEntriesFileList#1 assert [full-list] len($fileList) == bundleEntriesPerFile
 //@   call uploadBundleEntriesFileList#2 assert [last-list] 0 < len($fileList) && len($fileList) < bundleEntriesPerFile
 //@   call uploadBundleDescriptor#1 assert [lists-first] listsStored(ms, bundle, bundle.BundleDescriptor.BundleEntriesFileCount)
@@ -201,6 +205,10 @@ package core
 //@   call skipFile#1 bind skipped = $ret0
 //@   call uploadBundleFile#1 assert [not-skipped] skipped_set && !skipped
 //@   call uploadBundleFile#1 assert [same-file] $file == file && $fileIdx == fileIdx
+// the done signal is sent only after every slot of the upload semaphore was taken back (each uploader
+// holds one slot until it returns)
+//@   call uploadBundleFile#1 assert [holds-a-slot] $chans.concurrencyControl == concurrencyControl
+//@   send chans.doneOk#1 assert [after-all-uploaders-returned] i >= cap(concurrencyControl)
 
 // ---- latest bundle / squash (C06 readers, C10) -----------------------------------------------------
 //@ func GetLatestBundle
@@ -550,3 +558,36 @@ package core
 //@   call Get#1 assert [reads-source] $key == oldFileList
 //@   call PutCRC#1 assert [writes-target-create-if-absent] $key == newFileList && $noOverwrite == storage.NoOverWrite
 //@   call Put#1 assert [writes-target-create-if-absent] $key == newFileList && $noOverwrite == storage.NoOverWrite
+
+// ---- listing diamonds and splits (C07): a key whose descriptor is gone (e.g. the initial-state
+// descriptor replaced by the final one between the key scan and the read) is skipped, neither listed
+// nor reported as a failure of the whole listing; any other failure is reported
+//@ func readDiamond
+//@   requires store != nil
+//@   call Get#1 bind ge = $ret1
+//@   ensures [propagate] ge_set && ge != nil ==> ret1 != nil
+//@   ensures [not-found-stays-not-found] ge_set && ge != nil && errIs(ge, iface(storagestatus.ErrNotExists)) ==> errIs(ret1, iface(storagestatus.ErrNotExists))
+
+//@ func getDiamondAsync
+//@   requires store != nil
+//@   call Is#1 assert [sentinel] $target == iface(storagestatus.ErrNotExists)
+//@   call Is#1 assert [err] $err == err
+//@   call readDiamond#1 assert [of-key] $k == k && $repo == repo && $store == store
+//@   call readDiamond#1 bind de = $ret1
+//@   send output#1 assert [missing-descriptor-is-not-an-error] de_set && !errIs(de, iface(storagestatus.ErrNotExists))
+//@   send output#2 assert [only-fetched-diamonds] de_set && de == nil
+
+//@ func readSplit
+//@   requires store != nil
+//@   call Get#1 bind ge = $ret1
+//@   ensures [propagate] ge_set && ge != nil ==> ret1 != nil
+//@   ensures [not-found-stays-not-found] ge_set && ge != nil && errIs(ge, iface(storagestatus.ErrNotExists)) ==> errIs(ret1, iface(storagestatus.ErrNotExists))
+
+//@ func getSplitAsync
+//@   requires store != nil
+//@   call Is#1 assert [sentinel] $target == iface(storagestatus.ErrNotExists)
+//@   call Is#1 assert [err] $err == err
+//@   call readSplit#1 assert [of-key] $k == k && $repo == repo && $store == store
+//@   call readSplit#1 bind de = $ret1
+//@   send output#1 assert [missing-descriptor-is-not-an-error] de_set && !errIs(de, iface(storagestatus.ErrNotExists))
+//@   send output#2 assert [only-fetched-splits] de_set && de == nil
